@@ -277,8 +277,8 @@ def run_shard(shard, ctx):
                         ctx.hist['skipped-after-enough-violations'] += 1
                         continue
                     if u in WIDE_RANGE_UNITS and 'Sec' in p \
-                            and ctx.extra.get('known_seen', 0) >= 2:
-                        # the recorded finding has been witnessed twice in
+                            and ctx.extra.get('known_seen', 0) >= 1:
+                        # the recorded finding has been witnessed in
                         # this shard; each further witness costs ~20 s
                         ctx.hist['skipped-further-witnesses-of-known-finding'] += 1
                         continue
